@@ -595,6 +595,33 @@ class Models:
                 e = self.prog.lookup_attr(self.prog.cls("Quantity"), attr)
                 if e is not None and isinstance(e, ast.Constant):
                     return self.constant(e.value, node)
+                # an attribute every quantity class gets from its metaclass when it is created: what the metaclass
+                # __init__ / __new__ assigns to it, if that is a constant or an empty container
+                for mname in ("__init__", "__new__"):
+                    mfi = self.prog.lookup(self.prog.cls(meta), mname)
+                    if mfi is None or not hasattr(mfi.node, "body"):
+                        continue
+                    for n_ in ast.walk(mfi.node):
+                        tgt = None
+                        if isinstance(n_, ast.Assign) and len(n_.targets) == 1:
+                            tgt = n_.targets[0]
+                        elif isinstance(n_, ast.AnnAssign) and n_.value is not None:
+                            tgt = n_.target
+                        if isinstance(tgt, ast.Attribute) and tgt.attr == attr and isinstance(tgt.value, ast.Name) and \
+                                tgt.value.id == "cls":
+                            val = n_.value
+                            init_v = None
+                            if isinstance(val, ast.Constant):
+                                init_v = self.constant(val.value, node)
+                            elif isinstance(val, ast.Tuple) and not val.elts:
+                                init_v = TupleV([])
+                            elif isinstance(val, ast.List) and not val.elts:
+                                init_v = ListV([])
+                            elif isinstance(val, ast.Dict) and not val.keys:
+                                init_v = DictV()
+                            if init_v is not None:
+                                self.st.cls_fields[(self.st.tfind(obj.tid), attr)] = init_v
+                                return init_v
                 I.unsupported(node, f"attribute {attr} of quantity class")
             return self.bind_func(fi, obj, node)
         if isinstance(obj, RateV):
@@ -1072,9 +1099,20 @@ class Models:
         if v.items is not None:
             return len(v.items)
         if v.length is None:
+            # the symbolic length `len(tag)` and a chosen concrete length are one quantity
+            atom = RF.atom(("len", v.tag))
+            known = self.st.norm(atom)
+            if known.is_const() and known.const_value().denominator == 1 and not v.len_choices:
+                v.length = int(known.const_value())
+                return v.length
             opts = v.len_choices or [0, 1, 2]
             c = self.I.choose(len(opts), f"len({v.tag})@{getattr(node, 'lineno', '?')}", [str(o) for o in opts])
             v.length = opts[c]
+            if not v.len_choices:
+                from .contracts import known_truth
+                if known_truth(self.st, CmpV("==", Num(atom, "int"), self.num_const(v.length))) is False:
+                    raise Infeasible
+                self.st.equate(atom, RF.const(v.length))
         return v.length
 
     def list_attr(self, v: ListV, attr, node):
@@ -1341,8 +1379,20 @@ class Models:
         if isinstance(obj, DictV):
             obj.items.append((key, v))
             return
+        if isinstance(obj, ListV) and obj.items is not None and isinstance(key, SliceV):
+            def idx_(x):
+                if x is None or isinstance(x, NoneV):
+                    return None
+                if isinstance(x, Num) and self.st.norm(x.rf).is_const():
+                    return int(self.st.norm(x.rf).const_value())
+                self.I.unsupported(node, "symbolic slice bound")
+            seq = self.iterate(v, node)
+            if seq is None:
+                self.I.unsupported(node, "slice assignment of an opaque value")
+            obj.items[idx_(key.lo):idx_(key.hi)] = seq
+            return
         if isinstance(obj, ListV) and obj.items is not None and isinstance(key, Num):
-            obj.items[int(key.rf.const_value())] = v
+            obj.items[int(self.st.norm(key.rf).const_value())] = v
             return
         if isinstance(obj, ListV):
             return
